@@ -90,6 +90,8 @@ func readCableLabsEbp(data []byte) (ebp *cableLabsEbp, err error) {
 	}
 
 	index := uint8(0)
+	// has reports whether n more bytes can be read at index
+	has := func(n int) bool { return int(index)+n <= len(data) }
 
 	ebp.DataFieldTag = data[index]
 	index += uint8(1)
@@ -111,11 +113,17 @@ func readCableLabsEbp(data []byte) (ebp *cableLabsEbp, err error) {
 	}
 
 	if ebp.ExtensionFlag() {
+		if !has(1) {
+			return nil, gots.ErrInvalidEBPLength
+		}
 		ebp.ExtensionFlags = data[index]
 		index += uint8(1)
 	}
 
 	if ebp.SapFlag() {
+		if !has(1) {
+			return nil, gots.ErrInvalidEBPLength
+		}
 		ebp.SapType = data[index]
 		index += uint8(1)
 	}
@@ -123,12 +131,18 @@ func readCableLabsEbp(data []byte) (ebp *cableLabsEbp, err error) {
 	if ebp.GroupingFlag() {
 		var group byte
 		var groupExtFlag bool
+		if !has(1) {
+			return nil, gots.ErrInvalidEBPLength
+		}
 		groupExtFlag = data[index]&0x80 != 0
 		group = data[index] & 0x7F
 		ebp.Grouping = append(ebp.Grouping, group)
 		index += uint8(1)
 
 		for groupExtFlag {
+			if !has(1) {
+				return nil, gots.ErrInvalidEBPLength
+			}
 			groupExtFlag = data[index]&0x80 != 0
 			group = data[index] & 0x7F
 			ebp.Grouping = append(ebp.Grouping, group)
@@ -137,6 +151,9 @@ func readCableLabsEbp(data []byte) (ebp *cableLabsEbp, err error) {
 	}
 
 	if ebp.TimeFlag() {
+		if !has(8) {
+			return nil, gots.ErrInvalidEBPLength
+		}
 		ebp.TimeSeconds = binary.BigEndian.Uint32(data[index : index+4])
 		index += uint8(4)
 
@@ -145,15 +162,18 @@ func readCableLabsEbp(data []byte) (ebp *cableLabsEbp, err error) {
 	}
 
 	if ebp.PartitionFlag() {
+		if !has(1) {
+			return nil, gots.ErrInvalidEBPLength
+		}
 		ebp.PartitionFlags = data[index]
 		index += uint8(1)
 	}
 
-	if index < ebp.DataFieldLength+2 {
-		if int(ebp.DataFieldLength+2) > len(data) {
+	if end := int(ebp.DataFieldLength) + 2; int(index) < end {
+		if end > len(data) {
 			return nil, gots.ErrInvalidEBPLength
 		}
-		ebp.ReservedBytes = data[index : ebp.DataFieldLength+2]
+		ebp.ReservedBytes = data[index:end]
 	}
 
 	// update the successful read time
